@@ -502,6 +502,25 @@ def observe_file_with_url(schema, path, url):
     return None
 
 
+def observe_open_file(schema, path, relative):
+    """loadConfigFile on an open file whose name is the absolute path, or
+    (after changing into its directory) the bare file name."""
+    import ZConfig
+    old = os.getcwd()
+    try:
+        if relative:
+            os.chdir(os.path.dirname(path))
+            path = os.path.basename(path)
+        try:
+            with open(path, encoding="utf-8", newline="\n") as f:
+                ZConfig.loadConfigFile(schema, f)
+        except Exception as e:  # noqa
+            return e
+        return None
+    finally:
+        os.chdir(old)
+
+
 def observe_text(schema, text):
     import io
     import ZConfig
@@ -581,7 +600,8 @@ def judge(ctx, p, rng, dirpath):
                         spec = None
                 except ovr.NoSuchSection:
                     spec = None
-        for included in (False, True, "nourl", "given-url") + (
+        for included in (False, True, "nourl", "given-url",
+                         rng.choice(["fobj", "fobj-rel"])) + (
                 ("override",) if spec else ()):
             marked = list(lines)
             for i in ok_idx:
@@ -593,7 +613,11 @@ def judge(ctx, p, rng, dirpath):
                 if layout is None:
                     res.count("not_cuttable")
                     continue
-            else:
+            elif included in ("fobj", "fobj-rel"):
+                # the culprit in an included resource (when the text can be
+                # cut), the outer one handed over as an open file
+                layout = _cut_around(rng, marked, ok_idx[0])
+            if layout is None:
                 layout = cuts.Layout()
                 layout.files["b/main.conf"] = marked
             res.evaluations += 1
@@ -622,6 +646,9 @@ def judge(ctx, p, rng, dirpath):
             elif included == "override":
                 e = observe(p.schema, main, [spec])
                 res.count("judged_with_override")
+            elif included in ("fobj", "fobj-rel"):
+                e = observe_open_file(p.schema, main, included == "fobj-rel")
+                res.count("judged_from_open_file")
             else:
                 e = observe(p.schema, main)
             res.count("judged")
@@ -638,7 +665,8 @@ def judge(ctx, p, rng, dirpath):
                                         cls, exotic))
             case = {"model": p.model, "files": layout.texts(),
                     "kind": kind, "expected_positions": want,
-                    "stage": stage, "conv_datatype": conv_dt}
+                    "stage": stage, "conv_datatype": conv_dt,
+                    "mode": str(included)}
             res.sample("%s-%s" % (kind, included if isinstance(included, str)
                                   else "inc" if included else "main"),
                        dict(case, error=cls), 1)
@@ -767,7 +795,11 @@ def replay(ctx, case):
         os.makedirs(os.path.dirname(fp), exist_ok=True)
         with open(fp, "w") as f:
             f.write(text)
-    e = observe(schema, os.path.join(d, "b", "main.conf"))
+    if case.get("mode") in ("fobj", "fobj-rel"):
+        e = observe_open_file(schema, os.path.join(d, "b", "main.conf"),
+                              case["mode"] == "fobj-rel")
+    else:
+        e = observe(schema, os.path.join(d, "b", "main.conf"))
     # expected positions were recorded with the original scratch directory;
     # rebase them
     want = []
